@@ -199,6 +199,17 @@ def run(ctx):
     for d in good[: max(2, ndes // 2)]:
         for mu in c02.mutants(d, rng, per_class=1):
             jobs.append({"kind": "fault", "design": mu["design"], "fault": mu["class"], "module": mu["site"].split(".")[0], "unrelated": unrelated, "style": mu.get("style", "proc")})
+    # faults that a failing pass's own partial rewrite could erase: an extra connection given last on an instance array / pair / plain instance, at the top
+    import copy as _copy
+    import gen_design as _gd
+    for kindkey, extra in (("array", {"array": 2}), ("pair", {"pair": ["p", "n"]}), ("plain", {})):
+        R = _copy.deepcopy(_gd.LEAVES[3])
+        sigs = [{"n": "a", "w": 1, "port": True, "dir": "none"}, {"n": "b", "w": 1, "port": False, "dir": "none"}, {"n": "zz", "w": 1, "port": False, "dir": "none"}]
+        bundles = [{"n": "d1", "of": "Diff", "port": False}, {"n": "d2", "of": "Diff", "port": False}] if kindkey == "pair" else []
+        good_conns = [["p", {"k": "bundle", "n": "d1"}], ["n", {"k": "bundle", "n": "d2"}]] if kindkey == "pair" else [["p", {"k": "sig", "n": "a"}], ["n", {"k": "sig", "n": "b"}]]
+        inst = dict({"n": "x1", "of": R, "conns": good_conns + [["no_such_port", {"k": "sig", "n": "zz"}]]}, **extra)
+        dd = {"bundles": [_gd.DIFF] if kindkey == "pair" else [], "modules": [{"name": "Top", "sigs": sigs, "bundles": bundles, "insts": [inst]}], "top": "Top"}
+        jobs.append({"kind": "fault", "design": dd, "fault": f"extra_connection_last_on_{kindkey}", "module": "Top", "unrelated": unrelated, "style": "proc"})
     mo = ctx.drv.run([designs.sem_line(j, None) for j in jobs])
     jobs = [j for j, o in zip(jobs, mo) if j["kind"] == "inject" or "error" in o["src"]]
     results = common.pmap_fresh(scenario, jobs)
